@@ -6,6 +6,7 @@ cd /verif
 export GOFLAGS=-mod=mod GOPROXY=off GOSUMDB=off GOTOOLCHAIN=local CGO_ENABLED=0
 mkdir -p .build evidence
 (cd factgen && go1.26.8 build -o /verif/.build/factgen . && /verif/.build/factgen /repo /verif/lean/PsaDhcp/Generated/Facts.lean)
+(cd xlate && go1.26.8 build -o /verif/.build/xlate . && /verif/.build/xlate /repo /verif/lean/PsaDhcp/Generated/Code.lean /verif/xlate/hints.json)
 (cd lean && lake build PsaDhcp PsaDhcp.Expect driver)
 cp /repo/go.sum harness/go.sum
 (cd harness && go1.26.8 test -c -tags verif -o /verif/.build/hx.test .)
